@@ -99,6 +99,32 @@ theorem post_counts (w : UInt32) : 1 ≤ Spec.postTimes (addPosttimes w) := by
     simp at *
     omega
 
+/-! ### the friend list row -/
+
+theorem hbflScan_zeros (uid k : Nat) : hbflScan uid (List.replicate k 0) = false := by
+  cases k <;> simp [List.replicate, hbflScan]
+
+theorem hbflScan_nonzero_append (uid : Nat) (fs rest : List Nat) (hnz : ∀ f ∈ fs, f ≠ 0) :
+    hbflScan uid (fs ++ rest) = (decide (uid ∈ fs) || hbflScan uid rest) := by
+  induction fs with
+  | nil => simp
+  | cons f r ih =>
+    have hf : f ≠ 0 := hnz f (by simp)
+    have ih' := ih (fun g hg => hnz g (by simp [hg]))
+    simp only [List.cons_append, hbflScan, hf, if_false, List.mem_cons]
+    by_cases h : f = uid
+    · simp [h]
+    · have h' : ¬ uid = f := fun e => h e.symm
+      simp [h, h', ih']
+
+theorem hbflFill_nonzero (es : List Nat) : ∀ f ∈ hbflFill es, f ≠ 0 := by
+  intro f hf
+  have := List.mem_of_mem_take hf
+  simpa using (List.mem_filter.mp this).2
+
+theorem hbflFill_length (es : List Nat) : (hbflFill es).length ≤ MAX_FRIEND := by
+  unfold hbflFill; simp [List.length_take]; omega
+
 /-! ### runEvents -/
 
 /-- the guard fires on this row. -/
